@@ -9,6 +9,7 @@
      xsum g l   : bool  := fold_right (fun x r => xorb (g x) r) false l
    Bound used throughout for the conversion: n <= 32 (the width of a Cube mask). *)
 From Coq Require Import List NArith Bool Sorted.
+From V Require Import Spec.TwoLevelCost Checkers.Check Proofs.CheckSoundTwoLevel Proofs.CheckSoundCube.   (* the extracted checkers and their soundness proofs, pinned at the end of this file *)
 From V Require Import Proofs.Order.
 From V Require Import Base.Res Model.Kernels Model.TwoLevel Spec.Bfun Proofs.EsopProofs.
 Import ListNotations.
@@ -149,3 +150,71 @@ Print Assumptions C15_is_zero_sound.
 Print Assumptions C15_is_one_sound.
 Print Assumptions C15_to_lut_sem.
 Print Assumptions C15_roundtrip_closed.
+
+
+(* ---- soundness of the extracted checkers that decide this property's statement on the implementation's results *)
+Theorem C15_checker_esop_result_iff : forall n r f,
+  chk_esop_result n r f = true <-> forall m, m < 2 ^ N.of_nat n -> sem_xor r m = f m.
+Proof. exact CheckSoundTwoLevel.chk_esop_result_iff. Qed.
+
+Theorem C15_checker_esop_result_spec : forall n r f,
+  chk_esop_result n r f = true <-> forall m, m < 2 ^ N.of_nat n -> EsopProofs.esem r m = f m.
+Proof. exact CheckSoundTwoLevel.chk_esop_result_spec. Qed.
+
+Theorem C15_checker_esop_xor_model : forall a b r,
+  env a = env b -> esop_xor a b = Ok r ->
+  env r = env a /\ chk_esop_result (env a) (ecubes r) (fun m => xorb (esop_value a m) (esop_value b m)) = true.
+Proof. exact CheckSoundTwoLevel.chk_esop_xor_model. Qed.
+
+Theorem C15_checker_esop_not_model : forall s,
+  env (esop_not s) = env s /\
+  chk_esop_result (env s) (ecubes (esop_not s)) (fun m => negb (esop_value s m)) = true.
+Proof. exact CheckSoundTwoLevel.chk_esop_not_model. Qed.
+
+Theorem C15_checker_increasing_iff : forall l,
+  increasing l = true <-> StronglySorted N.lt l.
+Proof. exact CheckSoundTwoLevel.increasing_iff. Qed.
+
+Theorem C15_checker_esop_from_lut_iff : forall n t r,
+  chk_esop_from_lut n t r = true <->
+  Forall (fun c => cneg c = 0 /\ cpos c < 2 ^ N.of_nat n) r /\
+  StronglySorted N.lt (map cpos r) /\
+  forall m, m < 2 ^ N.of_nat n -> sem_xor r m = val t m.
+Proof. exact CheckSoundTwoLevel.chk_esop_from_lut_iff. Qed.
+
+Theorem C15_checker_esop_from_lut_spec : forall n t r,
+  chk_esop_from_lut n t r = true <->
+  exists ss, r = map EsopProofs.pcube ss /\ Forall (fun s => s < 2 ^ N.of_nat n) ss /\ StronglySorted N.lt ss /\
+             forall m, m < 2 ^ N.of_nat n -> EsopProofs.esem (map EsopProofs.pcube ss) m = val t m.
+Proof. exact CheckSoundTwoLevel.chk_esop_from_lut_spec. Qed.
+
+Theorem C15_checker_esop_from_lut_model : forall n t,
+  (n <= 32)%nat -> wf n t ->
+  chk_esop_from_lut n t (ecubes (esop_from_lut n t)) = true.
+Proof. exact CheckSoundTwoLevel.chk_esop_from_lut_model. Qed.
+
+Theorem C15_checker_esop_from_lut_sound : forall n t r,
+  (n <= 32)%nat -> wf n t ->
+  (chk_esop_from_lut n t r = true <-> r = ecubes (esop_from_lut n t)).
+Proof. exact CheckSoundTwoLevel.chk_esop_from_lut_sound. Qed.
+
+Theorem C15_checker_spec_esop_value_model : forall s m,
+  Forall CubeProofs.c32 (ecubes s) -> spec_esop_value (ecubes s) m = esop_value s m.
+Proof. exact CheckSoundCube.spec_esop_value_model. Qed.
+
+Theorem C15_checker_text_esop : forall s ms,
+  Forall CubeProofs.c32 (ecubes s) ->
+  chk_text (esop_display s) (spec_esop_value (ecubes s)) ms false = true.
+Proof. exact CheckSoundCube.chk_text_esop. Qed.
+
+Print Assumptions C15_checker_esop_result_iff.
+Print Assumptions C15_checker_esop_result_spec.
+Print Assumptions C15_checker_esop_xor_model.
+Print Assumptions C15_checker_esop_not_model.
+Print Assumptions C15_checker_increasing_iff.
+Print Assumptions C15_checker_esop_from_lut_iff.
+Print Assumptions C15_checker_esop_from_lut_spec.
+Print Assumptions C15_checker_esop_from_lut_model.
+Print Assumptions C15_checker_esop_from_lut_sound.
+Print Assumptions C15_checker_spec_esop_value_model.
+Print Assumptions C15_checker_text_esop.
